@@ -17,7 +17,7 @@
 From Coq Require Import List.
 From Algo.Grammar Require Import CFG.
 From Algo.C08 Require Import Model Spec ProofsBase ProofsLang1 ProofsLang2 ProofsLang3 ProofsLang4 Names NamesProofs.
-From Algo.C09 Require Import Model Concrete Proofs ProofsCNF ProofsVerify.
+From Algo.C09 Require Import Model Concrete Proofs ProofsCNF ProofsVerify ProofsCycles.
 Import ListNotations.
 
 Section C09.
@@ -103,18 +103,26 @@ Section C09.
     exact (unit_valid teqb neqb teqb_spec neqb_spec G G' (valid_wf G HG) Hy H).
   Qed.
 
-  (** every other result declares all the symbols it uses (Verify() minus "every non-terminal
-      has a production") *)
-  Theorem C09_cycles_symbols : forall G G' : gram, valid G -> cycles_elim teqb neqb fresh G = Ok G' ->
-    verify_symbols teqb neqb G' = true.
+  (** EliminateCycles leaves no derivation A =>+ A (checker [no_cycle]: the graph with an edge
+      A -> B for every A -> α B β with α, β nullable is acyclic; here it has no edge at all) and
+      declares every symbol it uses *)
+  Theorem C09_cycles_post : forall G G' : gram, valid G -> cycles_elim teqb neqb fresh G = Ok G' ->
+    no_cycle neqb G' = true /\ verify_symbols teqb neqb G' = true.
   Proof.
-    intros G G' HG H. apply (verify_symbols_spec teqb neqb teqb_spec neqb_spec).
-    exact (proj2 (ok_or_names_ok _ _ _ (cycles_total teqb neqb fresh teqb_spec neqb_spec fresh_spec G (valid_wf G HG)) H)).
+    intros G G' HG H. split.
+    - exact (cycles_post teqb neqb fresh teqb_spec neqb_spec fresh_spec G G' (valid_wf G HG) H).
+    - apply (verify_symbols_spec teqb neqb teqb_spec neqb_spec).
+      exact (proj2 (ok_or_names_ok _ _ _ (cycles_total teqb neqb fresh teqb_spec neqb_spec fresh_spec G (valid_wf G HG)) H)).
   Qed.
 
+  (** [left_factored]: no two different alternatives of a head begin with the same symbol *)
+  Theorem C09_left_factored_correct : forall G : gram,
+    left_factored teqb neqb G = true <->
+    forall p q s b1 b2, In p (prods G) -> In q (prods G) -> head p = head q ->
+      body p = s :: b1 -> body q = s :: b2 -> p = q.
+  Proof. exact (left_factored_spec teqb neqb teqb_spec neqb_spec). Qed.
+
   (** full statements not (yet) proved on the model; checked on the Go outputs by the driver *)
-  Definition C09_cycles_post_full : Prop := forall G G' : gram, valid G ->
-    cycles_elim teqb neqb fresh G = Ok G' -> no_cycle neqb G' = true.
   Definition C09_left_recursion_post_full : Prop := forall (order : gram -> list N) (G G' : gram), valid G ->
     left_recursion_elim teqb neqb fresh order G = Ok G' -> no_left_recursion neqb G' = true.
   Definition C09_verify_full (X : gram -> res gram) : Prop := forall G G' : gram, valid G ->
@@ -165,6 +173,7 @@ Print Assumptions C09_unit_post.
 Print Assumptions C09_unreachable_post.
 Print Assumptions C09_del_verify.
 Print Assumptions C09_unit_verify.
-Print Assumptions C09_cycles_symbols.
+Print Assumptions C09_cycles_post.
+Print Assumptions C09_left_factored_correct.
 Print Assumptions C09_left_factor_post_refuted.
 Print Assumptions C09_del_verify_refuted.
